@@ -27,9 +27,9 @@ def HeapOrd (h : H Entry) : Prop := Proofs.Heapq.HeapFrom ltEntry h 0
 
 theorem ltEntry_order : Proofs.Heapq.OrderOK ltEntry where
   le_total := fun a b => by
-    simp only [Proofs.Heapq.le, ltEntry, Bool.not_eq_true', decide_eq_false_iff_not]; omega
+    simp only [Proofs.Heapq.le, Cache.ltEntry_def, Bool.not_eq_true', decide_eq_false_iff_not]; omega
   le_trans := fun a b c => by
-    simp only [Proofs.Heapq.le, ltEntry, Bool.not_eq_true', decide_eq_false_iff_not]; omega
+    simp only [Proofs.Heapq.le, Cache.ltEntry_def, Bool.not_eq_true', decide_eq_false_iff_not]; omega
 
 theorem cfgOK_heapq {cfg : Cfg} (ok : Proofs.Cache.CfgOK cfg) : Proofs.Heapq.CfgOK cfg := ⟨ok.parent_lt, ok.left_gt⟩
 theorem cfgOK_cache {cfg : Cfg} (ok : Proofs.Heapq.CfgOK cfg) : Proofs.Cache.CfgOK cfg := ⟨ok.parent_lt, ok.left_gt⟩
@@ -39,7 +39,7 @@ theorem minOK_of_heapOrd (h : H Entry) (hh : HeapOrd h) : Proofs.Cache.minOK h =
   simp only [Proofs.Cache.minOK, List.all_eq_true, decide_eq_true_eq]
   intro e he
   have := Proofs.Heapq.heap_root_min_mem ltEntry_order h hh e he
-  simpa [ltEntry] using this
+  simpa [Cache.ltEntry_def] using this
 
 theorem heapOrd_log (h : H Entry) (l : List (Entry × Nat)) (hh : HeapOrd h) : HeapOrd { h with log := l } :=
   fun k hk c hc hcl => hh k hk c hc hcl
@@ -50,7 +50,7 @@ theorem newest_max {h : H Entry} {v : Entry} (hv : ∀ e ∈ h.data, e.lastAcces
     ∀ x ∈ h.data, ltEntry v x = false := by
   intro x hx
   have := hv x hx
-  simp only [ltEntry, decide_eq_false_iff_not]; omega
+  simp only [Cache.ltEntry_def, decide_eq_false_iff_not]; omega
 
 /-- **repaired configuration**: heap order is an invariant of everything the LRU store does to its heap -/
 theorem heapInv_repaired {cfg : Cfg} (hr : Proofs.Heapq.CfgRepaired cfg) : Proofs.Cache.HeapInv cfg HeapOrd where
